@@ -1,0 +1,39 @@
+//go:build verif
+
+// Contracts for package bint, checked by /verif (contract-based deductive
+// verification). This file contains comments only: the package is identical
+// with or without the build tag.
+package bint
+
+//@ spec be(b []byte, i int) uint64 = i <= 0 ? 0 : (be(b, i-1) << 8) + uint64(b[i-1])
+//@ spec nbytes(n uint64) int = n == 0 ? 0 : n < 0x100 ? 1 : n < 0x10000 ? 2 : n < 0x1000000 ? 3 : n < 0x100000000 ? 4 : n < 0x10000000000 ? 5 : n < 0x1000000000000 ? 6 : n < 0x100000000000000 ? 7 : 8
+
+// nbytes is the number of significant bytes: its closed form satisfies the
+// defining recursion.
+//@ lemma nbytes_rec(n uint64)
+//@   props C17
+//@   ensures nbytes(n) == (n == 0 ? 0 : 1 + nbytes(n >> 8))
+
+//@ func Decode props=C17,C10
+//@   ensures result == be(b, len(b))
+//@   loop#0 invariant 0 <= i && i <= len(b) && n == be(b, i)
+//@   loop#0 decreases len(b) - i
+
+//@ func size props=C17
+//@   ensures int(s) == (n == 0 ? 1 : nbytes(n))
+//@   ensures 1 <= int(s) && int(s) <= 8
+//@   loop#0 invariant int(s) + nbytes(n) == nbytes(old(n)) && 0 <= int(s) && int(s) <= 8 && nbytes(n) >= 0
+//@   loop#0 invariant n == 0 || int(s) < 8
+
+//@ func Encode props=C17
+//@   requires b == nil || (forall k int :: 0 <= k && k < len(b) ==> b[k] == 0)
+//@   panics_if b != nil && len(b) < (n == 0 ? 1 : nbytes(n))
+//@   ensures b != nil ==> len(result) == len(b)
+//@   ensures b == nil ==> len(result) == (n == 0 ? 1 : nbytes(n))
+//@   ensures [bytes] all k in 0..7 :: k < len(result) ==> result[len(result)-1-k] == byte(n >> (8*k))
+//@   ensures [pad] forall k int :: 8 <= k && k < len(result) ==> result[len(result)-1-k] == 0
+//@   loop#0 invariant -1 <= i && i < len(b) && i+1 >= nbytes(n) && nbytes(n) >= 0
+//@   loop#0 invariant 0 <= len(b)-1-i && len(b)-1-i <= 8
+//@   loop#0 invariant all j in 0..8 :: len(b)-1-i == j ==> n == old(n) >> (8*j)
+//@   loop#0 invariant all k in 0..7 :: k < len(b)-1-i ==> b[len(b)-1-k] == byte(old(n) >> (8*k))
+//@   loop#0 invariant forall k int :: 0 <= k && k <= i ==> b[k] == 0
